@@ -89,6 +89,8 @@ def gen_level(rng, engine: str, bounds, lsc: dict | None = None, stack=None, max
         lv["mutation_std"] = rmin * rng.choice([0.01, 0.05, 0.25, 1.5])
         lv["p_mutation"] = rng.choice([1.0, 1.0, 0.3])
         lv["k_elites"] = rng.randint(1, 3)
+        if engine in SEA_FAMILY and rng.random() < 0.08:
+            lv["k_elites"] = lv["pop"] + rng.choice([0, 0, 1])  # (mu + mu) plus-selection: every parent is an elite
         if engine in ("sea_cx", "ga"):
             lv["p_crossover"] = rng.choice([0.7, 1.0, 0.3])
         if engine == "sea_adapt":
